@@ -486,13 +486,19 @@ pub fn ctl_oid() -> BoxedStrategy<String> {
     .boxed()
 }
 
+/// List lengths: usually 0..=max, rarely a long list (RFC 4511 sets no bound on the number of controls), biased to
+/// the usual capacity boundaries
+fn list_len(max: usize) -> BoxedStrategy<usize> {
+    prop_oneof![16 => 0..=max, 1 => proptest::sample::select(&[15usize, 16, 17, 31, 32, 33, 34, 63, 64, 65, 100][..]), 1 => 6usize..=80].boxed()
+}
+
 pub fn req_controls(max: usize) -> BoxedStrategy<Vec<Ctl>> {
-    vec((ctl_oid(), any::<bool>(), proptest::option::of(gens::blob(16))).prop_map(|(oid, crit, val)| Ctl { oid, crit, val }), 0..=max).boxed()
+    list_len(max).prop_flat_map(|n| vec((ctl_oid(), any::<bool>(), proptest::option::of(gens::blob(16))).prop_map(|(oid, crit, val)| Ctl { oid, crit, val }), n..=n)).boxed()
 }
 
 pub fn resp_controls(max: usize) -> BoxedStrategy<Vec<RCtl>> {
     let cf = prop_oneof![Just(CritForm::Absent), Just(CritForm::False), Just(CritForm::True)];
-    vec((ctl_oid(), cf, proptest::option::of(gens::blob(16))).prop_map(|(oid, crit, val)| RCtl { oid, crit, val }), 0..=max).boxed()
+    list_len(max).prop_flat_map(move |n| vec((ctl_oid(), cf.clone(), proptest::option::of(gens::blob(16))).prop_map(|(oid, crit, val)| RCtl { oid, crit, val }), n..=n)).boxed()
 }
 
 /// Compare the library's view of a response control list with the model.
